@@ -135,6 +135,10 @@ func (f *RequiredField) DoRead(r io.ReadSeeker, pg Page) (io.Reader, []int, erro
 		out = append(out, data...)
 		nRead += int(ph.DataPageHeader.NumValues)
 	}
+
+	if nRead != pg.N {
+		return nil, nil, fmt.Errorf("column chunk has %d values, expected %d", nRead, pg.N)
+	}
 	return bytes.NewBuffer(out), sizes, nil
 }
 
@@ -277,7 +281,7 @@ func (f *OptionalField) DoWrite(w io.Writer, meta *Metadata, vals []byte, count 
 // DoRead is called by all optional fields.  It reads the definition levels and uses
 // them to interpret the raw data.
 func (f *OptionalField) DoRead(r io.ReadSeeker, pg Page) (io.Reader, []int, error) {
-	var nRead int
+	var nRead, nValsTotal int
 	var out []byte
 	var sizes []int
 	var rc *readCounter
@@ -300,6 +304,7 @@ func (f *OptionalField) DoRead(r io.ReadSeeker, pg Page) (io.Reader, []int, erro
 
 		var l int
 		nVals := int(ph.DataPageHeader.NumValues)
+		nValsTotal += nVals
 
 		if f.repeated {
 			reps, l2, err := readLevels(bytes.NewBuffer(data[l:]), int32(bits.Len(uint(f.MaxLevels.Rep))))
@@ -327,6 +332,10 @@ func (f *OptionalField) DoRead(r io.ReadSeeker, pg Page) (io.Reader, []int, erro
 		sizes = append(sizes, n)
 		out = append(out, data[l:]...)
 		nRead += int(rc.n)
+	}
+
+	if nValsTotal != pg.N {
+		return nil, nil, fmt.Errorf("column chunk has %d values, expected %d", nValsTotal, pg.N)
 	}
 	return bytes.NewBuffer(out), sizes, nil
 }
